@@ -12,7 +12,14 @@ different arguments, identity of out-buffers across calls).
 
 Output: lean/EmbitModel/Generated/AliasFacts.lean — `sites : List Site` (name, kind, probe result, evidence) and
 `outBuffers` (for C20). A hazard that is neither classifiable nor probed is emitted as `.unclassified` (never
-skipped), which `Props/C19.facts_safe` cannot discharge."""
+skipped), which `Props/C19Facts.facts_safe_partial` cannot discharge.
+
+Second part (harness/sharedstate.py, run in a brand-new interpreter by `shared_sites()`): hidden state that is NOT a
+parameter - module-level and class-level mutable objects, their flows into instance attributes / return values, functions
+that write them or rebind names under `global`, memo fields in other shapes, cache decorators, module-level memo
+dictionaries, aliases of the native library -> `sharedSites : List HeapShared.SharedSite`, `sharedScan` (obligations in
+Props/C19Y.lean). Native calls made through an alias (`lib = _secp; lib.f(buf)`, `fn = _secp.f`, `getattr(_secp, 'f')`)
+are followed by `binding_buffers` like literal `_secp.f(...)` calls."""
 import ast
 import importlib
 import inspect
@@ -1054,11 +1061,13 @@ def binding_buffers(mod, fd, f):
         if isinstance(node, ast.Assign) and len(node.targets) == 1 and isinstance(node.targets[0], ast.Name):
             binds.setdefault(node.targets[0].id, []).append(node.value)
     rows = []
+    libs, fn_alias = native_names(mod, fd)
     for node in ast.walk(fd):
-        if not (isinstance(node, ast.Call) and isinstance(node.func, ast.Attribute) and isinstance(node.func.value, ast.Name)
-                and node.func.value.id == "_secp"):
+        if not isinstance(node, ast.Call):
             continue
-        native = node.func.attr
+        native = native_symbol(node, libs, fn_alias)
+        if native is None:
+            continue
         for i, a in enumerate(node.args):
             if not isinstance(a, ast.Name):
                 continue
@@ -1082,6 +1091,52 @@ def binding_buffers(mod, fd, f):
 
 
 _INT_PARAMS = set()
+
+
+def native_names(mod, fd):
+    """names under which the function reaches the native library: module-level names bound to a ctypes library (value
+    level; `_secp` by convention), local aliases `lib = _secp`, and local names bound to one native function
+    (`fn = _secp.sym`, `fn = getattr(_secp, 'sym')`)"""
+    libs = {"_secp"}
+    try:
+        import ctypes
+        libs |= {k for k, v in vars(mod).items() if isinstance(v, ctypes.CDLL)}
+    except Exception:
+        pass
+    fn_alias = {}
+    for _ in range(2):
+        for node in ast.walk(fd):
+            if isinstance(node, ast.Assign) and len(node.targets) == 1 and isinstance(node.targets[0], ast.Name):
+                t, v = node.targets[0].id, node.value
+                if isinstance(v, ast.Name) and v.id in libs:
+                    libs.add(t)
+                elif isinstance(v, ast.Attribute) and isinstance(v.value, ast.Name) and v.value.id in libs:
+                    fn_alias[t] = v.attr
+                elif isinstance(v, ast.Call) and isinstance(v.func, ast.Name) and v.func.id == "getattr" and len(v.args) >= 2 \
+                        and isinstance(v.args[0], ast.Name) and v.args[0].id in libs:
+                    a1 = v.args[1]
+                    fn_alias[t] = a1.value if isinstance(a1, ast.Constant) and isinstance(a1.value, str) else "<computed symbol>"
+    return libs, fn_alias
+
+
+def native_symbol(node, libs, fn_alias):
+    """the native symbol a call node reaches: `_secp.sym(...)`, `lib.sym(...)` with `lib = _secp`, `fn(...)` with
+    `fn = _secp.sym`, `getattr(_secp, 'sym')(...)`; None for every other call"""
+    f = node.func
+    if isinstance(f, ast.Attribute) and isinstance(f.value, ast.Name) and f.value.id in libs:
+        return f.attr
+    if isinstance(f, ast.Name) and f.id in fn_alias:
+        return fn_alias[f.id]
+    if isinstance(f, ast.Call) and isinstance(f.func, ast.Name) and f.func.id == "getattr" and len(f.args) >= 2 \
+            and isinstance(f.args[0], ast.Name) and f.args[0].id in libs:
+        a1 = f.args[1]
+        return a1.value if isinstance(a1, ast.Constant) and isinstance(a1.value, str) else "<computed symbol>"
+    return None
+
+
+def reaches_native(mod, fd):
+    libs, fn_alias = native_names(mod, fd)
+    return any(isinstance(n, ast.Call) and native_symbol(n, libs, fn_alias) is not None for n in ast.walk(fd))
 
 
 def classify_buffer(e, params, f):
@@ -1295,8 +1350,17 @@ def analyse_function(sm, q, f, owner, fd, acls, probes, sites, buffers, class_me
             used = set()
             for st in node.body:
                 used |= names_in(st)
-            # locals computed from parameters before the guard count as parameters
-            dep = sorted(x for x in used if x in allp)
+            # locals computed from parameters before the guard count as parameters (`v = sum(amounts); if self._g is None:
+            # self._g = v`): taint the locals assigned from an expression that mentions a (tainted) parameter
+            tainted = set(allp)
+            for _ in range(3):
+                for st in ast.walk(fd):
+                    if isinstance(st, ast.Assign) and (names_in(st.value) & tainted):
+                        for t in st.targets:
+                            for nm in ast.walk(t):
+                                if isinstance(nm, ast.Name) and nm.id != "self":
+                                    tainted.add(nm.id)
+            dep = sorted(x for x in used if x in tainted)
             keyed = memo_is_keyed(node.test, fld)
             if keyed:
                 # locals computed from the parameters (key = tuple(amounts)) count as the parameters
@@ -1398,7 +1462,7 @@ def analyse_function(sm, q, f, owner, fd, acls, probes, sites, buffers, class_me
                               "%s: cannot tell where %s comes from" % (what, bn)))
 
     # ---- (e) buffers handed to native code (ctypes binding)
-    if f is not None and "_secp" in names_in(fd) and sm.endswith("ctypes_secp256k1"):
+    if f is not None and (("_secp" in names_in(fd) and sm.endswith("ctypes_secp256k1")) or (has_native_lib(mod) and reaches_native(mod, fd))):
         rows = binding_buffers(mod, fd, f)
         rets = [n for n in ast.walk(fd) if isinstance(n, ast.Return)]
         returns_param = any(isinstance(r.value, ast.Name) and r.value.id in allp for r in rets if r.value is not None)
@@ -1427,6 +1491,14 @@ def analyse_function(sm, q, f, owner, fd, acls, probes, sites, buffers, class_me
 
 def returns_bool(fd):
     return False
+
+
+def has_native_lib(mod):
+    try:
+        import ctypes
+        return any(isinstance(v, ctypes.CDLL) for v in vars(mod).values())
+    except Exception:
+        return False
 
 
 def is_stream_param(p, fd):
@@ -1736,6 +1808,29 @@ def _dedent(src):
     return textwrap.dedent(src)
 
 
+LAST_SHARED = None      # the shared-state translator's JSON of the last generate() (targets for generic histories)
+
+
+def shared_sites():
+    """the second part of the translator (harness/sharedstate.py), run in a brand-new interpreter so that its pictures
+    are import-time pictures; names made distinct deterministically"""
+    global LAST_SHARED
+    import sharedstate
+    try:
+        d = sharedstate.collect_in_subprocess()
+    except Exception as e:
+        d = {"sites": [{"name": "unanalysed:shared-state translator", "kind": ".unclassified", "probe": "notProbed",
+                        "evidence": "%s: %s" % (type(e).__name__, str(e)[:500]), "target": None}], "stats": {}}
+    names = {}
+    for x in d["sites"]:
+        n = names.get(x["name"], 0)
+        names[x["name"]] = n + 1
+        if n:
+            x["name"] = "%s#%d" % (x["name"], n + 1)
+    LAST_SHARED = d
+    return d
+
+
 def generate():
     import facts
     MEMO_KEY_KINDS.clear()
@@ -1751,6 +1846,7 @@ def generate():
     out = []
     w = out.append
     w("import EmbitModel.Model.Heap")
+    w("import EmbitModel.Model.HeapShared")
     w("/-")
     w("  GENERATED by harness/aliasfacts.py (facts.regenerate \"alias\") from the loaded embit modules plus their")
     w("  source (ast) — do not edit. One record per place where hidden shared state or argument mutation could arise:")
@@ -1785,6 +1881,21 @@ def generate():
     w(",\n".join("  " + lean_str(ev[:400]) for (n, cp, ev) in MEMO_KEYS))
     w("]")
     w("")
+    shared = shared_sites()
+    w("/-- hidden shared state at module and class level (harness/sharedstate.py: inventory of the loaded modules, ast,")
+    w("    probes run in children of a pristine process): every module- / class-level mutable object, every flow of one")
+    w("    into an instance attribute or a return value, every function that writes one or rebinds a name under `global`,")
+    w("    memo fields in other shapes, cache decorators, module-level memo dictionaries, aliases of the native library. -/")
+    w("def sharedSites : List Embit.HeapShared.SharedSite := [")
+    w(",\n".join('  { name := %s, kind := %s, probe := .%s,\n    evidence := %s }' % (
+        lean_str(x["name"]), x["kind"], x["probe"], lean_str(x["evidence"][:700])) for x in shared["sites"]))
+    w("]")
+    w("")
+    w("/-- what the shared-state translator looked at (a table that silently shrinks breaks `shared_facts_cover_the_anchors`) -/")
+    w("def sharedScan : List (String × Nat) := [")
+    w(",\n".join("  (%s, %d)" % (lean_str(k), v) for k, v in sorted(shared["stats"].items())))
+    w("]")
+    w("")
     w("end Embit.Gen.Alias")
     return os.path.join(facts.GEN_DIR, "AliasFacts.lean"), "\n".join(out) + "\n"
 
@@ -1796,3 +1907,7 @@ if __name__ == "__main__":
         print("%-70s %-32s %-16s %s" % (s.name, s.kind, s.probe, s.evidence[:150]))
     print(stats, "skipped:", skipped)
     print(len(buffers), "buffers")
+    d = shared_sites()
+    for x in d["sites"]:
+        print("%-70s %-32s %-16s %s" % (x["name"], x["kind"], x["probe"], x["evidence"][:150]))
+    print(d["stats"])
